@@ -287,13 +287,18 @@ func (w *World) ReadyRoles() []string {
 // ApplyTask executes the import/removal events of the C07/C08 alphabets.
 func (w *World) ApplyTask(ev string) (bool, error) {
 	switch ev {
-	case "i.m0", "i.m1":
+	case "i.m0", "i.m1", "i.mB":
 		if w.TaskStatus("C") != "" {
 			return false, nil
 		}
 		hint := uint32(0)
 		if ev == "i.m1" {
 			hint = 3
+		}
+		if ev == "i.mB" {
+			// directed histories only: an index hint that makes the import call write several
+			// thousand records in ONE wallet-database transaction
+			hint = 2100
 		}
 		return true, w.ImportC(hint)
 	case "i.s":
